@@ -474,7 +474,31 @@ pub fn gen_case(rng: &mut Rng) -> Case {
             joined.extend(tail.clone());
             let mut upper: Name = vec![a.to_uppercase().into_bytes(), b.clone().into_bytes()];
             upper.extend(tail.clone());
-            let mut names = vec![split, joined, upper, tail];
+            let mut names = vec![split, joined, upper, tail.clone()];
+            // labels made of letters, dots and backslashes only: every way two different label
+            // sequences can look alike once written as text ("a\" + "b" next to "a.b", "\." next to ".", ...)
+            for _ in 0..rng.usize(4) {
+                let mut n: Name = Vec::new();
+                for _ in 0..1 + rng.usize(3) {
+                    let len = 1 + rng.usize(3);
+                    n.push((0..len).map(|_| *rng.pick(&[b'a', b'.', b'\\', b'b'])).collect());
+                }
+                n.extend(tail.clone());
+                names.push(n);
+            }
+            // and deliberate pairs: label "x\" followed by label "y" next to the single label "x.y" (and the like)
+            if rng.chance(1, 2) {
+                let x: Vec<u8> = (0..rng.usize(3)).map(|_| *rng.pick(&[b'a', b'.', b'\\'])).collect();
+                let y: Vec<u8> = (0..1 + rng.usize(2)).map(|_| *rng.pick(&[b'b', b'.', b'\\'])).collect();
+                let sep = *rng.pick(&[b'.', b'\\']);
+                let mut two: Name = vec![[x.clone(), vec![b'\\']].concat(), y.clone()];
+                two.extend(tail.clone());
+                let mut one: Name = vec![[x.clone(), vec![sep], y.clone()].concat()];
+                one.extend(tail.clone());
+                let mut one_b: Name = vec![[x, vec![b'\\', b'.'], y].concat()];
+                one_b.extend(tail.clone());
+                names.extend([two, one, one_b]);
+            }
             rng.shuffle(&mut names);
             for n in names.iter() {
                 let r = match rng.below(3) {
@@ -532,7 +556,7 @@ pub fn run(report: &Report, tier: &Tier) {
     report.set_rule(
         "messages of questions and PTR/SRV/TXT/A/AAAA records in all sections built through the crate's encoder; classes: small, \
          near-limit (8972±40 bytes), several-packets, oversize-record with suffix-sharing followers, ServiceInfo-derived names, \
-         look-alike names (a\\.b vs a.b, case variants); distinct by (class, #packets, section sizes, size bucket)",
+         look-alike names (a\\.b vs a.b, labels of letters, dots and backslashes, case variants); distinct by (class, #packets, section sizes, size bucket)",
     );
     report.assume("the reference parser W is correct and shares no code with the crate");
     report.assume("E4 allowance: in a response, additionals after the first one that does not fit may be left out (adjudicated, DESIGN §12)");
